@@ -135,7 +135,7 @@ def audit_sources():
     return hits
 
 
-THEOREM_RE = re.compile(r"^\s*(?:@\[[^\]]*\]\s*)?(?:private\s+|protected\s+)?theorem\s+([A-Za-z_][\w.']*)")
+THEOREM_RE = re.compile(r"^\s*(?:@\[[^\]]*\]\s*)?(?:private\s+|protected\s+)?theorem\s+([^\s(\[{:]+)")
 NS_RE = re.compile(r"^\s*namespace\s+([\w.]+)")
 END_RE = re.compile(r"^\s*end\s+([\w.]+)\s*$")
 
